@@ -556,7 +556,11 @@ class HTTPMessageLogEntry(AbstractMessageLogEntry):
             return self._summary
         content_type = self._guess_content_type(msg)
         if content_type.startswith("application/llsd"):
-            notation = llsd.format_notation(llsd.parse(msg.content))
+            try:
+                notation = llsd.format_notation(llsd.parse(msg.content))
+            except llsd.LLSDParseError:
+                # Claimed to be LLSD, but wasn't. Not worth failing to log or export over.
+                return self._summary
             self._summary += notation.decode("utf8")[:500]
         return self._summary
 
